@@ -209,13 +209,61 @@ fn exec_loop(t: &mut Tape, st: &mut Stats) -> Result<(), String> {
 /// write on a fresh sender.
 fn exec_history(t: &mut Tape, st: &mut Stats) -> Result<(), String> {
     let api = if t.below(2) == 0 { Api::Flow } else { Api::Call };
-    let kind = match t.weighted(&[3, 1, 1]) {
+    let kind = match t.weighted(&[3, 1, 1, 2]) {
         0 => Kind::DefaultChunked,
         1 => Kind::ExplicitTe,
-        _ => Kind::DefaultChunkedHttp10,
+        2 => Kind::DefaultChunkedHttp10,
+        _ => Kind::Sized(1_000_000),
     };
     let mut s = Sender::new(api, kind)?;
     let nsteps = t.range(2, 10);
+    if let Kind::Sized(total) = kind {
+        // length-delimited: refused operations in between (an overshooting write, an overshooting direct-write report) must not
+        // cost the following legal writes their progress
+        let mut left = total as usize;
+        let mut desc = vec![];
+        for i in 0..nsteps {
+            match t.weighted(&[4, 1, 1]) {
+                0 => {
+                    let out = match t.weighted(&[2, 2, 1]) {
+                        0 => t.range(1, 8),
+                        1 => t.range(9, 600),
+                        _ => t.range(600, 20_000),
+                    };
+                    let input_len = t.range(1, 20_000.min(left));
+                    let input = &pattern()[300..300 + input_len];
+                    let (c, _) = with_out(out, |o| s.write(input, o)).map_err(|e| format!("step {}: legal write(in = {}, out = {}) with {} left failed: {:?}; history {:?}", i, input_len, out, left, e, desc))?;
+                    st.evals(1);
+                    let want = input_len.min(out);
+                    if c != want {
+                        return Err(format!("step {}: write(in = {}, out = {}) consumed {} instead of {}; history {:?}", i, input_len, out, c, want, desc));
+                    }
+                    left -= c;
+                    desc.push(json!({"write": [input_len, out], "consumed": c}));
+                }
+                1 => {
+                    if let Some(r) = s.direct(left + 1 + t.below(100)) {
+                        if r.is_ok() {
+                            return Err(format!("step {}: overshooting direct-write report accepted; history {:?}", i, desc));
+                        }
+                        desc.push(json!("refused direct report"));
+                    }
+                }
+                _ => {
+                    let n = left + 1;
+                    let r = if n <= pattern().len() { with_out(64, |o| s.write(&pattern()[..n], o)) } else { Ok((0, 0)) };
+                    if n <= pattern().len() && r.is_ok() {
+                        return Err(format!("step {}: overshooting write accepted; history {:?}", i, desc));
+                    }
+                    desc.push(json!("refused overshooting write"));
+                }
+            }
+        }
+        st.describe(|| json!({"api": format!("{:?}", api), "kind": "Sized(1000000)", "steps": desc}));
+        st.class("history_sized");
+        st.nontrivial(t.digest());
+        return Ok(());
+    }
     let mut off = 0usize;
     let mut desc = vec![];
     for i in 0..nsteps {
@@ -280,7 +328,8 @@ decodes to the consumed prefix. enumeration 'small' (thorough): all L <= 300 for
 whole-body send loops with a fixed buffer must terminate within |body| writes and decode to the body. \
 random 'histories': 2..10 writes on one body with buffers that grow and shrink (6..12, hex-digit boundaries, up to 12000), inputs \
 around the buffer size and around 16 / 256 / 4096 / 8192 / 10240, calculate_max_input() asked about the same or another size in \
-between: each write consumes >= 1 and exactly what the same write consumes on a fresh body. non-trivial = chunked pair with L > n-5 and n >= 21, or n-5-L in {0,1}; distinct by (n, L, api); loops with >= 2 writes.",
+between: each write consumes >= 1 and exactly what the same write consumes on a fresh body; length-delimited histories interleave refused \
+operations (overshooting write, overshooting direct-write report), after which legal writes must still consume min(in, out). non-trivial = chunked pair with L > n-5 and n >= 21, or n-5-L in {0,1}; distinct by (n, L, api); loops with >= 2 writes.",
     assumptions: &[
         "a fresh sender per (L, n) pair, so pairs are independent",
         "the smallest chunk needs 6 bytes (1 size digit + CRLF + 1 data byte + CRLF), as the property states",
